@@ -122,6 +122,25 @@ func c01Scenarios(tier string) []*Scenario {
 				out = append(out, sc)
 			}
 		}
+		// a handler that answers before it has received everything and then goes on receiving (an echo loop)
+		// while the client is strictly half duplex. Over an ordinary HTTP/1.1 server the rest of the request is
+		// gone once the reply has started, so the call may fail there -- but it never succeeds with messages lost
+		for _, h := range [][]string{{"r", "s0", "r+", "ret:ok"}, {"r", "s0", "r", "s1", "r+", "ret:ok"}, {"r", "H:a", "r+", "s0", "ret:ok"}} {
+			for _, kind := range []string{"bd", "cs"} {
+				if kind == "cs" && len(h) > 4 {
+					continue
+				}
+				rpc := RPC{Kind: kind, Client: []string{"S0", "S1", "S2", "C", "R*"}, Handler: h}
+				o := ""
+				if tr == "http" {
+					o = "mayfail"
+				}
+				out = append(out, &Scenario{Prop: "C01", Name: "early-reply|" + rpcName(rpc), Transport: tr, RPCs: []RPC{rpc}, Bound: -1, Opts: o})
+				if tr == "http" {
+					out = append(out, &Scenario{Prop: "C01", Name: "early-reply|" + rpcName(rpc) + "|env=fullduplex", Transport: tr, RPCs: []RPC{rpc}, Bound: -1, Opts: "fullduplex"})
+				}
+			}
+		}
 		// two RPCs at once on one channel
 		add(tr, unary, unary)
 		add(tr, unary, RPC{Kind: "ss", Client: []string{"S0", "C", "R*"}, Handler: []string{"r", "s0", "s1", "ret:ok"}})
@@ -150,7 +169,7 @@ func c01Oracle(sc *Scenario, rec *Rec, s *mc.Sched) []mc.Violation {
 		success := rr.FinalErr == "nil" || (rpc.Kind != "unary" && rr.FinalErr == "EOF") ||
 			(rr.FinalErr == "" && rpc.Kind == "cs" && len(rr.RecvRes) == 1 && rr.RecvRes[0] == "nil")
 		if !success {
-			if sc.Cancel == "" && !(rpc.Timeout != "" && statusCodeOf(rr.FinalErr) == "DeadlineExceeded") {
+			if sc.Cancel == "" && !strings.Contains(sc.Opts, "mayfail") && !(rpc.Timeout != "" && statusCodeOf(rr.FinalErr) == "DeadlineExceeded") {
 				add("call-failed", "final result "+normFinal(rr.FinalErr)+" in a fault-free scenario")
 			}
 			continue
